@@ -502,8 +502,9 @@ func litestream.(*Replica).Restore(r, ctx, opt) (err)
   loop 0 invariant snapshotItr != nil && itOK(snapshotItr) && it_client[snapshotItr] == old(r.Client) && it_level[snapshotItr] == 9 && wfLevel(old(r.Client), 9) && r == old(r)
   loop 0 invariant latestSnapshot == nil || (exists k int :: {item(snapshotItr, k)} 0 <= k && k < it_idx[snapshotItr] && latestSnapshot == item(snapshotItr, k))
   requires !pub_renamed && !c10_statAbsent && !c10_removed && c10_integrityErr == nil && c10_decodeErr == nil && c10_syncErr == nil && c10_closeErr == nil && c10_planErr == nil && c10_dlErr == nil && c10_applyErr == nil && v3_opened == 0
-  modifies $heap, $alloc, it_idx, file_written, path_synced, path_handle, file_closed, flock_held, fl_decClosed, fl_cur, fl_saved, fl_readErr, fl_statErr, fl_listErr, fl_iterErr, fl_maxErr, fl_resumed, pub_dst, pub_renamed, txf_dst, txf_renamed, c10_statAbsent, c10_decodeErr, c10_syncErr, c10_closeErr, c10_integrityErr, c10_ctxErr, c10_removed, c10_planErr, c10_dlErr, c10_applyErr, arb_v3U, arb_ltxU, arb_v3S, arb_v3SCreated, arb_ltxS, arb_ltxSCreated, v3_opened, v3_walIndex
+  modifies $heap, $alloc, it_idx, file_written, path_synced, path_handle, file_closed, flock_held, fl_decClosed, fl_cur, fl_saved, fl_readErr, fl_statErr, fl_listErr, fl_iterErr, fl_maxErr, fl_resumed, c08_ioErr, pub_dst, pub_renamed, txf_dst, txf_renamed, c10_statAbsent, c10_decodeErr, c10_syncErr, c10_closeErr, c10_integrityErr, c10_ctxErr, c10_removed, c10_planErr, c10_dlErr, c10_applyErr, arb_v3U, arb_ltxU, arb_v3S, arb_v3SCreated, arb_ltxS, arb_ltxSCreated, v3_opened, v3_walIndex
   at os.Stat#2 set c10_statAbsent = isNotExist($result1)
+  at litestream.CalcRestorePlan#1 reset c08_ioErr = false
   at litestream.CalcRestorePlan#1 set c10_planErr = $result1
   at os.Create#all assert [C03.tmp-only] hasSuffix($arg0, ".tmp") && $arg0 == tmpOutputPath && tmpOutputPath == concat(opt.OutputPath, ".tmp")
   at ltx.(*Decoder).DecodeDatabaseTo#1 assert [C10.decode-target] $arg0 == f && f != nil && path_handle[tmpOutputPath] == f
